@@ -152,8 +152,12 @@ func c15Oracle(in c15In) probe.Outcome {
 					// the sender writes the code into the packet's own AT_MAC storage (the value the getter hands out)
 					if a, gerr := ak.GetAttr(eap.AT_MAC); gerr == nil && len(a.GetValue()) == 16 {
 						copy(a.GetValue(), macs[0])
-						inPlace = true
-						labels = append(labels, "mac-filled-in-place")
+						// whether the getter hands out the packet's storage or a copy is the library's choice: the packet took
+						// the value, or the sender uses the setter after all
+						if a2, gerr := ak.GetAttr(eap.AT_MAC); gerr == nil && bytes.Equal(a2.GetValue(), macs[0]) {
+							inPlace = true
+							labels = append(labels, "mac-filled-in-place")
+						}
 					}
 				}
 				if !inPlace {
